@@ -191,7 +191,7 @@ theorem putNode_spec : ∀ (t : Node) (g : Oracle) (h : Heap), WF h → OwnedIn 
     rw [hl4, hl3, hl2, hl1, filter_keep_keep, filter_keep_keep, filter_keep_keep, owned]
     apply filter_keep_congr
     intro x
-    simp only [List.mem_append, List.mem_cons, List.not_mem_nil, or_false, false_or, or_assoc, or_comm, or_left_comm]
+    simp only [List.mem_append, List.mem_cons, List.not_mem_nil, false_or, or_assoc, or_comm, or_left_comm]
   | hobj b lh ms ih =>
     intro g h hwf ⟨hnd, hlive⟩
     rw [putNode]
@@ -230,6 +230,6 @@ theorem putNode_spec : ∀ (t : Node) (g : Oracle) (h : Heap), WF h → OwnedIn 
     rw [hl4, hl3, hl2, hl1, filter_keep_keep, filter_keep_keep, filter_keep_keep, owned]
     apply filter_keep_congr
     intro x
-    simp only [List.mem_append, List.mem_cons, List.not_mem_nil, or_false, false_or, or_assoc, or_comm, or_left_comm]
+    simp only [List.mem_append, List.mem_cons, List.not_mem_nil, false_or, or_assoc, or_comm, or_left_comm]
 
 end JsonC.Alloc
